@@ -198,6 +198,9 @@ def result_class_oracle(chk, rng, n):
              (np.array([1.5, 2.5], dtype=np.float32), None), (np.int64(3), None),
              ([float('nan'), None], ValueError), ([1.0, "a", float('inf')], ValueError), ((float('nan'), 1), ValueError),
              (np.array([1, None, np.nan], dtype=object), ValueError), ([1.0, None, "a"], None), (["a", "b"], None),
+             # a non-finite number anywhere: also minus infinity next to larger numbers
+             ([float('-inf'), 1.0], ValueError), (np.array([float('-inf'), 3.0]), ValueError), ((1.0, float('-inf')), ValueError),
+             ([np.array([1.0, 2.0]), np.array([float('-inf'), 5.0, 6.0])], ValueError), (np.array([[1.0, -np.inf], [2.0, 3.0]]), ValueError),
              # finite results stay finite however large they are together: every element is looked at, not a sum, a mean or a norm of them
              (np.array([1e308, 1e308]), None), (np.array([3e38, 3e38], dtype=np.float32), None), ([1e308, 1e308, -1e308], None), ([10 ** 400, 1.0], None),
              (np.array([-1.7e308, -1.7e308, 5.0]), None), (1.7976931348623157e308, None), (np.array([[1e200, 1e200], [1e200, 1e200]]), None)]
@@ -285,6 +288,45 @@ def guarded_runaway_oracle(chk):
     return True
 
 
+def failed_read_then_registration(chk):
+    """a failed read leaves nothing behind - not even the knowledge that 'there is no implementation': an implementation registered afterwards on a base
+    class (two levels up) is found by the next read through the subclass, and is gone again after its removal"""
+    from typing import Any
+    from pyroll.core import Hook, HookHost
+    for probe in ('read', 'has_value', 'nested'):
+        class Base(HookHost):
+            h = Hook[Any]()
+            g = Hook[Any]()
+
+        class Mid(Base):
+            pass
+
+        class Sub(Mid):
+            pass
+        Base.g(lambda self: self.h + 1)
+        s = Sub()
+        chk.cov['evaluations'] += 1
+        try:
+            if probe == 'read':
+                s.h
+            elif probe == 'has_value':
+                s.has_value('h')
+            else:
+                s.g
+        except AttributeError:
+            pass
+        f = Base.h(lambda self: 5)
+        got1 = getattr(s, 'h', 'no value')
+        got2 = getattr(Sub(), 'g', 'no value')
+        Base.h.remove_function(f)
+        got3 = getattr(Sub(), 'h', 'no value')
+        if (got1, got2, got3) != (5, 6, 'no value'):
+            return chk.fail('residue', f"a read of h through a subclass instance fails ({probe}); then an implementation is registered on the base class two levels up: "
+                            f"the same instance now reads {got1!r} (expected 5), a fresh instance reads g = {got2!r} (expected 6); after removing it again a fresh instance "
+                            f"reads {got3!r} (expected no value)", {'probe': probe})
+    return True
+
+
 def run(chk):
     chk.coq.add_prop_file('C07.v')
     chk.coq.compile('C07.v', is_props=True, timeout=900)
@@ -305,7 +347,7 @@ def run(chk):
         shrunk.append((cases[i], small))
         chk.unshown_add(f"correspondence:case{i}", "model and implementation disagree; shrunk history: " + json.dumps(small, default=str)[:1500])
     seen = set()
-    if result_class_oracle(chk, rng, 0) and guarded_runaway_oracle(chk):
+    if result_class_oracle(chk, rng, 0) and guarded_runaway_oracle(chk) and failed_read_then_registration(chk):
         for c in [cases[i] for i in bad] + cases:
             chk.cov['evaluations'] += 1
             seen.add(json.dumps(ser(c), sort_keys=True))
